@@ -575,6 +575,14 @@ def gen_table_cases(tab, real):
                         pats += [([(l, v1)], {var: small})]
                 if var:
                     pats += [([], {var: small})]
+                # ... whatever else is on the command line: next to every flag and every other valued option of this
+                # personality ("independent of which other options are present" holds for the refusals too)
+                if has:
+                    for fl in (FLAGS_DSH if pers == "dsh" else FLAGS_PCP):
+                        pats += [([(l, small), (fl, None)], {}), ([(fl, None), (l, small)], {})]
+                    for l2, f2 in settings:
+                        if l2 is not None and l2 != l and l2 in ostr and f2 != "rcmd_name":
+                            pats += [([(l, small), (l2, TABLE_VALUES.get(f2, ("7",))[0])], {})]
             for opts, env in pats:
                 for front in (True, False):
                     o = (opts + [("w", "foo"), ("q", None)]) if front else ([("w", "foo"), ("q", None)] + opts)
